@@ -91,12 +91,18 @@ func genC16(t *rapid.T, ctx *Ctx) interface{} {
 			op.Mut = rapid.SampledFrom(muts).Draw(t, "mut")
 			op.Pos = rapid.IntRange(0, 1000).Draw(t, "pos")
 			op.Stream = rapid.Bool().Draw(t, "stream")
-			op.Tmpl = rapid.SampledFrom([]string{"nil", "nil", "[]interface", "map[iface]", "struct", "[]int", "chan", "struct-chan", "map-func"}).Draw(t, "tmpl")
+			op.Tmpl = rapid.SampledFrom(c16Templates).Draw(t, "tmpl")
 		}
 		c.Ops = append(c.Ops, op)
 	}
 	return c
 }
+
+// templates of the unmarshaler histories: untyped, typed, unsupported kinds, and self-referential types
+// whose builder generation fails half-way (what a failed generation leaves in the instance's builder
+// session must not affect the next call)
+var c16Templates = []string{"nil", "nil", "nil", "[]interface", "map[iface]", "struct", "[]int", "chan", "struct-chan", "map-func",
+	"list", "*list", "self-chan", "*self-chan", "[]self-chan", "map-self-chan", "self-chan-before", "*self-chan-before", "self-containers-func", "[]self-containers"}
 
 var c16KeyTexts = []string{"a", "ab", "abc", "b", "bc", "c", "xy", "xyz", "z", "aé", "é", "éz"}
 
